@@ -142,8 +142,10 @@ func (c05Stream) Generate(rng *rand.Rand, n int, thorough bool) []Case {
 		}
 		// (poison: an earlier request of the connection was answered and its handler then panicked INSIDE a further Write -
 		// a typed-nil response -; gldap recovers that request, and the connection's later writers are none the worse)
-		cs = append(cs, Case{Line: fmt.Sprintf("c05 n=%d k=%d size=%d mode=%s slow=%d procs=%d nodone=%d poison=%d", w, k, size, modes[rng.Intn(4)],
-			rng.Intn(3)/2, []int{1, 2, 4, 16}[rng.Intn(4)], rng.Intn(4)/3, rng.Intn(3)/2), Kind: "writers"})
+		// (dead: just before, another connection's handlers wrote into a socket their client had already reset - failed
+		// writes, small and large - ; what they leave behind is their own business, not this connection's)
+		cs = append(cs, Case{Line: fmt.Sprintf("c05 n=%d k=%d size=%d mode=%s slow=%d procs=%d nodone=%d poison=%d dead=%d", w, k, size, modes[rng.Intn(4)],
+			rng.Intn(3)/2, []int{1, 1, 2, 4, 16}[rng.Intn(5)], rng.Intn(4)/3, rng.Intn(3)/2, rng.Intn(3)/2), Kind: "writers"})
 	}
 	return cs
 }
@@ -257,10 +259,12 @@ func (c05Stream) Impl(c Case) string {
 		if m.GetID() < int64(100+n) {
 			started.Done()
 			started.Wait() // rendezvous: all writers are alive before anyone writes
+		} else if m.GetID() >= 5000 {
+			time.Sleep(30 * time.Millisecond) // (the reset connections: by now the client is gone, every write fails)
 		}
 		for i := 0; i < k; i++ {
 			e := r.NewSearchResponseEntry(fmt.Sprintf("w%d-%d", m.GetID(), i), gldap.WithAttributes(map[string][]string{"p": {payloadOf(m.GetID())}}))
-			if err := w.Write(e); err == nil {
+			if err := w.Write(e); err == nil && m.GetID() < 5000 { // (5000 and up: the connections that were reset)
 				wmu.Lock()
 				wrote[m.GetID()]++
 				wmu.Unlock()
@@ -290,6 +294,27 @@ func (c05Stream) Impl(c Case) string {
 		return "harness-error start: " + err.Error()
 	}
 	defer func() { sut.tr.ReleaseAll() }()
+	if p["dead"] == "1" {
+		for v := 0; v < 2; v++ {
+			if dc, err := net.DialTimeout("tcp", sut.addr, 3*time.Second); err == nil {
+				var dreq []byte
+				for j := 0; j < 3; j++ {
+					r := Req{Kind: "search", ID: int64(5000 + 10*v + j), DN: "dc=x", Scope: 2, Filter: "(objectClass=*)"}
+					nd, _ := r.Node()
+					dreq = append(dreq, nd.Ser()...)
+				}
+				if mode == "plain" || mode == "starttls" {
+					_, _ = dc.Write(dreq)
+				}
+				if t, ok := dc.(*net.TCPConn); ok {
+					_ = t.SetLinger(0)
+				}
+				time.Sleep(2 * time.Millisecond)
+				dc.Close()
+			}
+		}
+		time.Sleep(120 * time.Millisecond)
+	}
 	cl, err := connect(sut.addr, mode)
 	if err != nil {
 		return "harness-error connect: " + err.Error()
